@@ -328,7 +328,7 @@ func (cr *checkRun) report(verif, evPath string, seed int, t0 time.Time, writeBa
 			continue
 		}
 		if verbose {
-			fmt.Printf("  FAILED %s: %s (%s) %s\n", o.Name, o.Status, o.Solver, o.Pos)
+			fmt.Printf("  FAILED %s: %s (%s) %s %s\n", o.Name, o.Status, o.Solver, o.Pos, truncate(o.Detail+" "+o.Model, 1500))
 		}
 		inBase := base[o.Name]
 		switch {
